@@ -138,6 +138,17 @@ def run(prop, tier):
                 e["case"] = {"kind": j["kind"], "cluster": j["cluster"], "callee_cluster": j["callee_cluster"], "version": j.get("cv") or "",
                              "direction": j.get("direction", "")}
             traces.append(evs)
+        # every qualified name the repository's own test suite gives a function (recorded by the pytest plugin), parsed
+        from . import suite_rec
+        sdoc = suite_rec.record_suite(wd)
+        sn = sdoc.get("names", [])
+        if not sn:
+            raise common.Machinery("the recording run of the test suite built no qualified name")
+        for e in sn:
+            e["case"] = {"kind": "suite", "cluster": "".join(e["cluster"]) or None, "version": "".join(e["version"]), "test": e.get("test", "")}
+        for i in range(0, len(sn), 25):
+            traces.append(sn[i:i + 25])
+        rep.cov["suite_qualified_names_parsed"] = len(sn)
         keep = ("op", "name", "cluster", "module", "function", "hasver", "version", "exc", "by", "ok", "kind", "served", "same", "memento",
                 "extok", "listok")
         payload = [{"cfg": {"x": 0}, "ev": [{k: v for k, v in e.items() if k in keep} for e in tr]} for tr in traces]
